@@ -254,3 +254,30 @@ def unrewound(ctx, q, root, until_nodes):
     D = dirtying_edges(ctx, q, root)
     S = rewind_edges(q, root)
     return q.must_follow(D, S, until_nodes), D, S
+
+
+def is_atime_touch_of(ev, root):
+    """an event that can only advance the access time of the object `root`: set_file_atime(path) or
+    set_file_handle_times(handle, _, None)."""
+    c = cls_of(ev)
+    if c == 'meta_atime':
+        return obj_root(arg_role(ev, 'path')) == root
+    if c == 'meta_times_h':
+        mt = arg_role(ev, 'mtime')
+        t = VAL[mt] if mt is not None else None
+        none = t is not None and t[0] == 'agg' and t[1] == 'std::option::Option' and t[2] == 'v0'
+        return none and obj_root(arg_role(ev, 'handle')) == root
+    return False
+
+
+def unfold_const_fn(ctx, v):
+    """value of an argument-less pure local function (a named constant in function form), else v."""
+    t = VAL[v] if v is not None else None
+    if t is not None and t[0] == 'sym' and t[1] == 'app' and t[2].startswith('local::') and len(t) == 4:
+        k = ctx.by_path.get(t[2][len('local::'):])
+        if k is not None and ctx.B[k]['arg_count'] == 0:
+            q = ctx.explore(k, opaque='none', precise=True, tag='constfn')
+            rets = {q.g.term[n]['val'] for n in q.terminals(lambda ev: ev['k'] == 'ret')}
+            if len(rets) == 1:
+                return next(iter(rets))
+    return v
